@@ -15,7 +15,7 @@ def check(ctx):
         "cancelable; R6 capture_local_spans opens a scope on every path, so local attachments made under an inner span "
         "cannot land on the enclosing one; R7 every (key, value) conversion closure keeps key and value in place; R8 the key attachments are parked under "
         "identifies one delivered record (known finding K3: the key is the span id alone while a span with two parents "
-        "in one trace is delivered as two copies with that id). R3 also: attachments are mounted once, after all collections of the call; R10 a scope records iff any item of its token is sampled.")
+        "in one trace is delivered as two copies with that id). R3 also: nothing but mount_danglings appends to a record's events / properties, batches park into and mount from the trace's one table, by one call; R1 also: the handle's route (a pseudo-span of its own) is taken on every path; attachments are mounted once, after all collections of the call; R10 a scope records iff any item of its token is sampled.")
     ctx.explanation += (" R11 the delivery bundle: queues drained to their end with the registry filtered in place, closed = closed and empty, "
                         "stale sets kept unless cancelable, shared sets fanned out to every parent, one sampling filter at the choke point, a scope "
                         "records iff any parent is sampled, setting a local parent opens a scope, no-op only without a recording parent.")
@@ -28,6 +28,7 @@ def check(ctx):
     provrules.rule_mount(ctx, facts, "R3")
     provrules.rule_mount_scope(ctx, facts, "R3")
     provrules.rule_mount_appends_only(ctx, facts, "R3")
+    provrules.rule_record_attachments_only_mounted(ctx, facts, "R3")
     provrules.rule_pairs_keep_orientation(ctx, facts, "R7")
     provrules.rule_danglings_key_unique(ctx, facts, "R8")
     from .. import scopes
